@@ -219,7 +219,18 @@ func (c *c06) Run(cs core.Case) core.Result {
 		}
 		rng.Shuffle(len(pk), func(i, j int) { pk[i], pk[j] = pk[j], pk[i] })
 		vp := filepath.Join(dir, base+"."+name+".par2")
-		if err := os.WriteFile(vp, par2rw.Serialize(pk), 0644); err != nil {
+		if rng.Intn(4) == 0 {
+			// the recovery file beside the index is a symbolic link
+			features["symlinked-volume"] = true
+			store := filepath.Join(root, "store")
+			os.MkdirAll(store, 0755)
+			real := filepath.Join(store, fmt.Sprintf("v%d.bin", k))
+			os.WriteFile(real, par2rw.Serialize(pk), 0644)
+			if err := os.Symlink(real, vp); err != nil {
+				r.Inconclusive("cannot symlink volume %q: %v", vp, err)
+				return r.Done()
+			}
+		} else if err := os.WriteFile(vp, par2rw.Serialize(pk), 0644); err != nil {
 			r.Inconclusive("cannot write volume %q: %v", vp, err)
 			return r.Done()
 		}
